@@ -210,18 +210,24 @@ package cors
 //@   ensures C15.lists_are_sets: cfg != nil && result1 == nil ==> (result0.allowAnyMethod == (exists j :: 0 <= j && j < len(cfg.Methods) && cfg.Methods[j] == "*")) && (result0.asteriskReqHdrs == (exists j :: 0 <= j && j < len(cfg.RequestHeaders) && cfg.RequestHeaders[j] == "*")) && (result0.allowAuthorization == (exists j :: 0 <= j && j < len(cfg.RequestHeaders) && cfg.RequestHeaders[j] != "*" && headers.IsValid(cfg.RequestHeaders[j]) && util.ByteLowercase(cfg.RequestHeaders[j]) == "authorization")) && ((result0.tree.root.schemes == nil && result0.tree.root.children == nil) == (exists j :: 0 <= j && j < len(cfg.Origins) && cfg.Origins[j] == "*"))
 
 //@ func NewMiddleware
-//@   props C04 C06 C09 C17
+//@   props C04 C05 C06 C09 C17
+//@   frozen E! F!util_Set
 //@   ensures C04.nil_on_error: result1 != nil ==> result0 == nil
 //@   ensures C09.new_debug_off: result1 == nil ==> result0 != nil && !result0.debug && result0.icfg != nil
+//@   ensures C04.published_config_invariant: result1 == nil ==> ICfgInv(result0.icfg)
 
 //@ func Middleware.Reconfigure
-//@   props C06 C08 C09 C17
+//@   props C04 C05 C06 C08 C09 C17
+//@   frozen E! F!util_Set
 //@   requires m != nil
 //@   ensures C08.unchanged_on_error: result != nil ==> m.icfg == old(m.icfg) && m.debug == old(m.debug)
 //@   ensures C08.nothing_written_on_error: result != nil ==> sameheap("F!cors_Middleware!icfg") && sameheap("F!cors_Middleware!debug") && nevents("Lock") == 0
 //@   ensures C09.reconfigure_nil: result == nil && cfg == nil ==> m.icfg == nil && !m.debug
 //@   ensures C09.reconfigure_keeps_debug: result == nil && cfg != nil ==> m.icfg != nil && m.debug == old(m.debug)
 //@   ensures C09.inv_preserved: (old(m.icfg) == nil ==> !old(m.debug)) ==> (m.icfg == nil ==> !m.debug)
+//@   ensures C04.published_config_invariant: result == nil && cfg != nil ==> ICfgInv(m.icfg)
+//@   ensures C04.accepted_only_if_permitted: result == nil && cfg != nil ==> old(ConfigOK(cfg))
+//@   ensures C08.rejected_iff_not_permitted: cfg != nil ==> ((result != nil) == !old(ConfigOK(cfg)))
 
 //@ func Middleware.SetDebug
 //@   props C09 C17
